@@ -550,7 +550,6 @@ def check_compiled(p, item):
             L.add_memory(m2)
         return L
 
-    import copy
     ref, rel, ref_exc, rel_exc = link_both(lambda: [obj], lay, extra=dict(slots))
     p.add()
     wit = {"kind": "c", "case": case, "level": level, "images": images}
